@@ -245,6 +245,9 @@ def confirm(prop, v):
         lines += ['arena_clone', 'arena_eq 0 1', 'arena_eq 1 0', 'arena_select 1', 'dump', 'arena_select 0', 'dump',
                   'reserve 7', 'capacity_ge %d' % (N + 7), 'dump', 'clear', 'count', 'new a 100', 'new b 101', 'new c 102', 'checked_append a b', 'checked_append a c', 'dump',
                   'arena_new', 'new a 100', 'new b 101', 'new c 102', 'checked_append a b', 'checked_append a c', 'dump']
+        nprobe = len(lines)
+        lines += ['arena_adjacent %d' % N] + replay.construct_script(pre)
+        for k_ in (1, 2, 3, 1000, 100000): lines += ['reserve %d' % k_, 'capacity_ge %d' % (N + k_)]
         res = replay.run_script(lines, profile)
         def dump_at(k):
             r = res.get(k)
@@ -264,6 +267,8 @@ def confirm(prop, v):
             if res.get(n0 + 12 + j) != res.get(n0 + 19 + j): bad.append('id after clear %s vs fresh %s' % (res.get(n0 + 12 + j), res.get(n0 + 19 + j)))
         d1, d2 = dump_at(n0 + 17), dump_at(n0 + 24)
         if not (d1 and d2 and replay.same_state(d1, d2)): bad.append('continuation after clear differs from fresh arena')
+        for k_ in range(nprobe, len(lines)):
+            if lines[k_].startswith('capacity_ge') and res.get(k_, ('', ''))[1].strip() != 'true': bad.append('%s after %s: %s' % (lines[k_], lines[k_ - 1], res.get(k_)))
         detail[profile] = {'pre_ok': ok, 'bad': bad[:8]}
         detail.setdefault('script', lines)
         if not ok:
